@@ -230,6 +230,38 @@ class Run:
         return EXIT_VIOLATION if self.violation_count else EXIT_OK
 
 
+class OperationTimeout(Exception):
+    pass
+
+
+class time_limit:
+    """Wall-clock watchdog for one explored operation (SIGALRM; worker processes run their task in the main
+    thread).  A change that makes the library loop or blow up must end as a reported violation, not as a hang."""
+
+    def __init__(self, seconds):
+        self.seconds = seconds
+
+    def _fire(self, signum, frame):
+        raise OperationTimeout(f"no result within {self.seconds} s")
+
+    def __enter__(self):
+        import signal
+        try:
+            self._old = signal.signal(signal.SIGALRM, self._fire)
+            signal.setitimer(signal.ITIMER_REAL, self.seconds)
+            self._armed = True
+        except ValueError:      # not in the main thread: no watchdog
+            self._armed = False
+        return self
+
+    def __exit__(self, *a):
+        if self._armed:
+            import signal
+            signal.setitimer(signal.ITIMER_REAL, 0)
+            signal.signal(signal.SIGALRM, self._old)
+        return False
+
+
 def raised_in_library(ex) -> bool:
     """True when the innermost frame of the exception's traceback is library code (under the repository's
     src directory): the library let a foreign exception escape while an oracle was exercising it.  An
